@@ -179,6 +179,16 @@ CLAIMED = {
         technique="native enumeration on the real dialect compilers (bounded) + static definite-return analysis of all @impl functions",
         note="trusted: SQLAlchemy compilers; stand-in DBAPI modules only make engine construction possible; DuckDB / DB2 not importable here; bounded enumeration",
     ),
+    "C12": dict(
+        category="other",
+        text="Bounded enumerations on the real code: (type universe) Dtype.from_polars(to_polars(t)) == t and lca_type is an order-independent upper bound without internal errors; (native "
+        "execution on a 3-row sample frame with nulls) for every operator x accepted signature over 11 concrete column types plus const / null literals, and for every accepted cast pair, "
+        "the dtype of the column exported by the real Polars backend is a subtype of - for concrete static types equal to - the static type of the expression; on SQLite the type family "
+        "agrees; export -> Table(frame) and collect() reproduce the exported types.",
+        design_ref="DESIGN.md §5.12",
+        technique="exhaustive evaluation over a finite type universe + native execution of every operator/signature on sample frames (bounded)",
+        note="bounded: type parameters sampled; one sample frame (the exported dtype is a property of the plan); Polars and SQLite engines trusted",
+    ),
 }
 
 NOT_YET = "check not built yet (engine under construction); will be claimed as soon as its obligations discharge"
